@@ -24,6 +24,9 @@ pub struct C04Case {
     pub second_claims: Value,
     pub choices: Vec<u16>,
     pub all_positions: bool,
+    /// key-bound presentations the same holder instance made before the honest one
+    #[serde(default)]
+    pub earlier: Vec<sut::EarlierCall>,
 }
 
 #[derive(Clone, Debug)]
@@ -329,6 +332,9 @@ pub fn attacks(
         let n = l[ch.pick(l.len())].clone();
         out.push(Attack { expect_nonce: Some(n.clone()), ..base("verifier expects a list containing the value", format!("verifier expects nonce {:?}, KB-JWT names {:?}", n, nonce), parts.clone()) });
     }
+    // i'. only one of the two AND the KB-JWT removed
+    out.push(Attack { expect_aud: None, ..base("only one of aud/nonce", "KB-JWT removed, verifier given only a nonce".into(), Parts { kb: None, ..parts.clone() }) });
+    out.push(Attack { expect_nonce: None, ..base("only one of aud/nonce", "KB-JWT removed, verifier given only an aud".into(), Parts { kb: None, ..parts.clone() }) });
     // i. only one of the two
     out.push(Attack { expect_aud: None, ..base("only one of aud/nonce", "verifier given only a nonce".into(), parts.clone()) });
     out.push(Attack { expect_nonce: None, ..base("only one of aud/nonce", "verifier given only an aud".into(), parts.clone()) });
@@ -352,7 +358,10 @@ pub fn check(case: &C04Case, st: &mut Stats) -> Verdict {
         }
     };
     let kbargs = KbArgs { aud: case.aud.clone(), nonce: case.nonce.clone(), key: spec.holder, default_alg: false };
-    let presentation = match sut::present(&issued, spec.fmt, &case.selection, Some(&kbargs)) {
+    if !case.earlier.is_empty() {
+        st.label("holder_served_earlier_presentations");
+    }
+    let presentation = match sut::present_after(&issued, spec.fmt, &case.earlier, &case.selection, Some(&kbargs)) {
         Out::Ok(p) => p,
         _ => {
             st.label("void:present_failed");
